@@ -738,6 +738,9 @@ func (d *V2) batchWrite(cmd *Cmd) (o Outcome) {
 	d.classify(err, &o)
 	if err == nil {
 		for _, t := range sortedKeys(out.UnprocessedItems) {
+			if len(out.UnprocessedItems[t]) == 0 {
+				o.UnprocEmpty = append(o.UnprocEmpty, t)
+			}
 			for _, w := range out.UnprocessedItems[t] {
 				r := BatchReq{T: t}
 				if w.PutRequest != nil {
@@ -777,6 +780,9 @@ func (d *V2) batchGet(cmd *Cmd) (o Outcome) {
 			}
 		}
 		for _, t := range sortedKeys(out.UnprocessedKeys) {
+			if len(out.UnprocessedKeys[t].Keys) == 0 {
+				o.UnprocEmpty = append(o.UnprocEmpty, t)
+			}
 			for _, k := range out.UnprocessedKeys[t].Keys {
 				o.UnprocKeys = append(o.UnprocKeys, BatchKey{T: t, Key: orEmpty(itemFromV2(k))})
 			}
